@@ -84,6 +84,12 @@ func (w *World) writerPaths(fn *ssa.Function) *writerInfo {
 			}
 		},
 		onInstr: func(fr *pxFrame, in ssa.Instruction, st *pxState) bool {
+			if ta, ok := in.(*ssa.TypeAssert); ok && ta.CommaOk {
+				// a dynamic-type test of a value (the struct writer's `.(time.Time)`): rules
+				// about what is recognised before what read it from the path
+				st.trace = append(st.trace, pxEvent{Kind: "typetest", Frame: fr, Args: []*Term{px.term(ta.X, fr, st)}, Env: st.env, Pos: w.instrPos(ta), Extra: typeStr(ta.AssertedType)})
+				return true
+			}
 			c, ok := in.(*ssa.Call)
 			if !ok {
 				return true
